@@ -279,20 +279,29 @@ class Roles:
     @property
     def stop_routine(self) -> FuncInfo:
         def build():
-            sd = self.solve_driver
             cands = []
-            for n in ast.walk(sd.node):
-                if isinstance(n, ast.While):
+            drv = self.iter_driver
+            for sd in self.helpers_of(self.solve_driver):
+                for n in ast.walk(sd.node):
+                    if not isinstance(n, ast.While):
+                        continue
+                    # the loop that performs the iterations
+                    if not any(isinstance(c, ast.Call) and drv in self.pta.internal_callees(sd, c)
+                               for b in n.body for c in ast.walk(b)):
+                        continue
+                    here = []
                     for c in ast.walk(n.test):
                         if isinstance(c, ast.Call):
-                            cands += self.pta.internal_callees(sd, c)
-                    if not cands:
-                        # while True: if stop(): break
+                            here += self.pta.internal_callees(sd, c)
+                    if not here:
+                        # while True: if stop(): break / return
                         for st in n.body:
-                            if isinstance(st, ast.If) and any(isinstance(x, ast.Break) for x in ast.walk(st)):
+                            if isinstance(st, ast.If) and any(isinstance(x, (ast.Break, ast.Return))
+                                                              for x in ast.walk(st)):
                                 for c in ast.walk(st.test):
                                     if isinstance(c, ast.Call):
-                                        cands += self.pta.internal_callees(sd, c)
+                                        here += self.pta.internal_callees(sd, c)
+                    cands += [c for c in here if c is not drv]
             return self._unique('stop routine', cands, 'call tested by the loop of the solve driver')
         return self.memo('stop_routine', build)
 
@@ -319,6 +328,34 @@ class Roles:
             return self._unique('new-point routine', cands, 'its result is the curve coordinate of the new item '
                                                             'built by the selection routine')
         return self.memo('new_point_routine', build)
+
+    def helpers_of(self, fn: FuncInfo) -> List[FuncInfo]:
+        """fn and the private helpers extracted from it (same class, reachable only through fn)."""
+        out = [fn]
+        for q in sorted(self.dominated_closure({self.fq(fn)})):
+            g = self.ix.funcs.get(q)
+            if g is None or g is fn or g.kind != 'function':
+                continue
+            if g.name.startswith('_') and not (g.name.startswith('__') and g.name.endswith('__')) and \
+                    g.cls is not None and fn.cls is not None and \
+                    (g.cls.is_subclass_of(fn.cls) or fn.cls.is_subclass_of(g.cls)):
+                out.append(g)
+        return out
+
+    def dominated_closure(self, allowed: Set[str]) -> Set[str]:
+        """Close an allow-list under call-graph dominance: a function all of whose callers are allowed is allowed
+        (a helper extracted from an allowed writer does not raise an alarm)."""
+        out = set(allowed)
+        changed = True
+        while changed:
+            changed = False
+            for q, callers in self._rg.items():
+                if q in out or not callers:
+                    continue
+                if all(c in out or c == q for c in callers):
+                    out.add(q)
+                    changed = True
+        return out
 
     def binding_table(self) -> Dict[str, str]:
         out = {}
